@@ -67,7 +67,9 @@ RULE = (
     '36 pairs of 9 operations with <= 1 preemption; thorough: all 120 pairs '
     'of 16 with <= 1 and the 6 pairs of four small operations with <= 2; '
     'each thread must get the frame / the decoded fields it gets alone, '
-    'also afterwards.  First use: 9 pairs of write/read operations on '
+    'also afterwards.  Sessions: six orders of three versions are coded '
+    'one after the other (every class, every instance) in a throw-away '
+    'child process that never coded anything before.  First use: 9 pairs of write/read operations on '
     'ChatPacket, UpdateHealthPacket, PositionAndLookPacket, KeepAlivePacket '
     '(same class twice with different values, and mixed) at protocol 757 '
     '(thorough: also 340) are run by two threads in a FRESH FORK of a '
@@ -2011,6 +2013,40 @@ def run_cold(ctx, ex):
                           'was ever written or read'}
 
 
+# -- sessions of different versions one after the other in ONE process ----------
+# The version tasks are farmed out to pool workers in a seed-dependent order,
+# so whether one process ever codes a class under two versions would be luck.
+# Here it is by construction, each order in a throw-away child process that
+# never coded anything before.
+
+SESSION_ORDERS = ((340, 757, 340), (757, 340, 757), (735, 751, 735),
+                  (751, 735, 751), (47, 578, 47), (404, 477, 404))
+
+
+def _sessions_in_child(proto, order):
+    from vf.runner import Ctx
+    sub = Ctx(*proto)
+    use_repo()
+    for v in order:
+        w_version(sub, v)
+    return sub.export()
+
+
+def check_session_orders(ctx):
+    for order in SESSION_ORDERS:
+        d = explore.in_child(_sessions_in_child,
+                             (ctx.pid, ctx.tier, ctx.seed, ctx.level), order)
+        before = set(ctx.violations)
+        ctx.absorb(d)
+        for k in set(ctx.violations) - before:
+            rec = ctx.violations[k]
+            rec['what'] += ('  (Found in a process that coded for the '
+                            'protocols %s in this order.)' % (list(order),))
+            rec['case'] = {'kind': 'sessions', 'order': list(order),
+                           'version': order[0]}
+        ctx.cls('sessions of several versions in one process, in order')
+
+
 def run(ctx):
     use_repo()
     # (imported before the fork so that every process sees the same class
@@ -2021,6 +2057,7 @@ def run(ctx):
     ex = explore.Explorer(memo=False)   # forks its workers before anything runs
     try:
         run_cold(ctx, ex)           # first: the parent is still cold too
+        check_session_orders(ctx)
         _run(ctx)
         if not ctx.violations:
             run_races(ctx, ex)
@@ -2089,6 +2126,9 @@ def replay(ctx, case):
             viol.append((x.failure[0], '%s: %s' % x.failure))
         for key, what in viol:
             ctx.violation('race %s' % key, what, case)
+        return
+    if case.get('kind') == 'sessions':
+        check_session_orders(ctx)
         return
     seed = case.get('seed', ctx.seed)
     env = Env(case['version'], seed)
